@@ -302,6 +302,7 @@ func (d *Driver) run(replay string) int {
 		}
 	}
 	tracesValidated := 0
+	schedWitnesses := 0
 	traceMismatch := []string{}
 	confirmed := []cand{}
 	unconfirmed := []cand{}
@@ -319,6 +320,11 @@ func (d *Driver) run(replay string) int {
 			}
 		}
 		for _, w := range wits {
+			if w.w.Scheduled {
+				// witnesses whose path depends on scheduler or select choices cannot be forced natively
+				schedWitnesses++
+				continue
+			}
 			o := outcomes[filepath.Base(w.file)]
 			if o == nil {
 				traceMismatch = append(traceMismatch, w.h.Name+": no native outcome for witness "+w.w.Tag)
@@ -376,6 +382,9 @@ func (d *Driver) run(replay string) int {
 		}
 	} else {
 		inconclusive = true
+	}
+	if schedWitnesses > 0 {
+		fmt.Printf("symgo: %d coverage witnesses depend on scheduler/select choices and were not replayed natively\n", schedWitnesses)
 	}
 	if len(traceMismatch) > 0 {
 		inconclusive = true
